@@ -3998,6 +3998,42 @@ theorem disc_file_site_rows (b : BlockDef) (q : String) (items : List Item) (k :
       (((records items).map (convertRow b.fields)).filter fun r => siteKey r = k).map dropSiteCode :=
   disc_site_rows _ _ k
 
+/-! ## 18. TROP/DESCRIPTION and TROP/SOLUTION from the file text -/
+
+/-- **TROP/DESCRIPTION from the file**: `data[keyword]` is the value field of the last written record with that keyword -/
+theorem tro_file_description (header : List FieldDef) (pre post : List BlockDef) (b : BlockDef) (q : String)
+    (hk : b.kind = .custom q) (hq : entryName q = "trop_description")
+    (hs : Sorted (layoutOf b.fields 81) = true) (hl : leadOk (layoutOf b.fields 81) = true)
+    (F : SnxFile) (hwf : F.wf) (ps : List Str) (items : List Item) (hitems : ∀ i ∈ items, i.wf b.fields 81)
+    (hfb : FirstBlock F.segs b.marker ps (content b.fields 81 items)) (k : String)
+    (hpre : ∀ b' ∈ pre, k ∉ troKeys (rawOf (expected ((pre ++ b :: post).map (·.marker)) F.segs)) b')
+    (hpost : ∀ b' ∈ post, k ∉ troKeys (rawOf (expected ((pre ++ b :: post).map (·.marker)) F.segs)) b')
+    (row : Row) (hrow : (((records items).map (convertRow b.fields)).filter fun r' => keywordOf r' = k).getLast? = some row)
+    (R : Result) (hR : parseTroFile header (pre ++ b :: post) F.text = some R) :
+    ∃ D, R.data = .dict D ∧ dget? D k = some (.cell (lookup row "value")) := by
+  obtain ⟨_, D, hRD, hD⟩ := parseTro_file header _ F hwf R hR
+  obtain ⟨r, hr, hrows⟩ := file_rows b hs hl F.segs ps items hitems hfb ((pre ++ b :: post).map (·.marker)) (by simp)
+  exact ⟨D, hRD, tro_description _ pre post b q hk hq k hpre hpost r hr D hD row (by rw [hrows]; exact hrow)⟩
+
+/-- **TROP/SOLUTION from the file**: `data[station]` is the dictionary of the last written record of that station,
+without `site_name` (the records of the block share the field names `ks` of its table) -/
+theorem tro_file_solution (header : List FieldDef) (pre post : List BlockDef) (b : BlockDef) (q : String)
+    (hk : b.kind = .custom q) (hq : entryName q = "trop_solution")
+    (hs : Sorted (layoutOf b.fields 81) = true) (hl : leadOk (layoutOf b.fields 81) = true)
+    (F : SnxFile) (hwf : F.wf) (ps : List Str) (items : List Item) (hitems : ∀ i ∈ items, i.wf b.fields 81)
+    (hfb : FirstBlock F.segs b.marker ps (content b.fields 81 items)) (k : String)
+    (hpre : ∀ b' ∈ pre, ∀ row ∈ (records items).map (convertRow b.fields),
+      stationOf row ∉ troKeys (rawOf (expected ((pre ++ b :: post).map (·.marker)) F.segs)) b')
+    (hpost : ∀ b' ∈ post, k ∉ troKeys (rawOf (expected ((pre ++ b :: post).map (·.marker)) F.segs)) b')
+    (ks : List String) (hnd : ks.Nodup) (hkeys : ∀ row ∈ (records items).map (convertRow b.fields), keys (restOf row) = ks)
+    (row : Row) (hrow : (((records items).map (convertRow b.fields)).filter fun r' => stationOf r' = k).getLast? = some row)
+    (R : Result) (hR : parseTroFile header (pre ++ b :: post) F.text = some R) :
+    ∃ D, R.data = .dict D ∧ dget? D k = some (rowVal (restOf row)) := by
+  obtain ⟨_, D, hRD, hD⟩ := parseTro_file header _ F hwf R hR
+  obtain ⟨r, hr, hrows⟩ := file_rows b hs hl F.segs ps items hitems hfb ((pre ++ b :: post).map (·.marker)) (by simp)
+  exact ⟨D, hRD, tro_solution _ pre post b q hk hq k r hr (by rw [hrows]; exact hpre) hpost ks hnd (by rw [hrows]; exact hkeys)
+    D hD row (by rw [hrows]; exact hrow)⟩
+
 end Midgard.Props.C14
 
 #print axioms Midgard.Props.C14.starts_sorted
@@ -4196,3 +4232,5 @@ end Midgard.Props.C14
 #print axioms Midgard.Props.C14.tms_file_reference
 #print axioms Midgard.Props.C14.fileRefTms_get
 #print axioms Midgard.Props.C14.disc_file_site_rows
+#print axioms Midgard.Props.C14.tro_file_description
+#print axioms Midgard.Props.C14.tro_file_solution
